@@ -402,8 +402,11 @@ class Coverage(BaseAnalysis):
         self._recurse_attr(node, 'expr', *args, **kwargs)
 
     def UnaryOp(self, node: pr.UnaryOp, *args, **kwargs):
+        operand = node.expr  # the analysis looks through casts
+        while isinstance(operand, pr.Cast):
+            operand = operand.expr
         if not (node.op in self.U_OPS and isinstance(
-                node.expr, (pr.ID, pr.Constant, pr.Cast, pr.UnaryOp))):
+                operand, (pr.ID, pr.Constant, pr.UnaryOp))):
             self.handler(node, *args, **kwargs)
         else:
             self._recurse_attr(node, 'expr', *args, **kwargs)
